@@ -9,6 +9,7 @@ import (
 	"fmt"
 	"os"
 	"sync"
+	"sync/atomic"
 	"time"
 
 	"github.com/aptpod/iscp-go/encoding"
@@ -117,15 +118,27 @@ type dialer struct{ b *Broker }
 
 func (d dialer) Dial(c transport.DialConfig) (transport.Transport, error) { return d.b.dial(c) }
 
-// Register makes iscp.Connect(addr, broker.TransportName) reach this broker.
+// Register makes iscp.Connect(addr, broker.TransportName) reach this broker. The library's dialer registry (a plain map that
+// production code writes at init time only) is written once per process; later calls only swap the broker the registered
+// dialer forwards to, so that connections of an earlier case that are still winding down never race with a registration.
 func (b *Broker) Register() {
-	iscp.VerifRegisterDialer(TransportName, func() transport.Dialer { return dialer{b} })
+	currentBroker.Store(b)
+	registerOnce.Do(func() {
+		iscp.VerifRegisterDialer(TransportName, func() transport.Dialer {
+			return indirectDialer{func() *Broker { return currentBroker.Load() }}
+		})
+	})
 }
 
-// RegisterIndirect registers, once, a dialer that asks `current` for the broker at dial time: a workload that uses one broker
-// after another does not write the library's dialer registry (a plain map, written only at init time in production) while
-// connections of an earlier round may still be reading it.
+var (
+	currentBroker atomic.Pointer[Broker]
+	registerOnce  sync.Once
+)
+
+// RegisterIndirect registers a dialer that asks `current` for the broker at dial time (for workloads that manage the current
+// broker themselves).
 func RegisterIndirect(current func() *Broker) {
+	registerOnce.Do(func() {})
 	iscp.VerifRegisterDialer(TransportName, func() transport.Dialer { return indirectDialer{current} })
 }
 
